@@ -109,7 +109,7 @@ template <class Sys> struct Engine {
             Hist h2 = node.h; h2.push_back((uint16_t)op);
             g_case() = hist_id(h2);
             Sys::apply(inst, op, true);
-            vp::transition();
+            vp::transition(); vp::eval();
             if(Sys::probe(op)) continue;
             Rec r; r.h = h2; r.c = h128(Sys::canon(inst));
             put(out, r);
@@ -224,7 +224,7 @@ template <class Sys> struct Engine {
                 while(get(in, r)) {
                     auto it = seen.find(r.c);
                     if(it == seen.end()) {
-                        seen.emplace(r.c, (uint32_t)all.size()); all.push_back(r.h); next.push_back(r); vp::state(); ++n_states;
+                        seen.emplace(r.c, (uint32_t)all.size()); all.push_back(r.h); next.push_back(r); vp::state(); vp::nontrivial(r.c.a); ++n_states;
                         if(n_states % 997 == 1) vp::sample(show(r.h));
                     } else if(((r.c.a >> 7) & 63) == ((uint64_t)r.h.size() & 63) && all[it->second] != r.h && diffjobs.size() < 4096) {
                         diffjobs.push_back({all[it->second], r.h});
